@@ -21,7 +21,7 @@ THEOREMS = ['C01_at_most_one_stop', 'C01_at_most_one_stop_from_empty', 'C01_exac
             'C01_set_thickness_refines', 'C01_set_thickness_first_zero', 'C01_set_thickness_thk',
             'C01_set_thickness_infinite_object',
             'C01_set_thickness_lens', 'C01_set_thickness_frame', 'C01_thickness_last_write_wins',
-            'C01_set_radius_exact', 'C01_set_radius_keeps_conic', 'C01_set_conic_exact',
+            'C01_set_radius_exact', 'C01_set_radius_frame', 'C01_set_radius_keeps_conic', 'C01_set_conic_exact',
             'C01_set_asphere_coeff_exact', 'C01_setZ_getZ',
             'C01_set_index_media', 'C01_set_index_readback', 'C01_set_index_frame',
             'C01_pickup_radius_satisfied', 'C01_pickup_conic_satisfied', 'C01_conic_pickup_succeeds',
